@@ -53,7 +53,9 @@ def extract(features=("std",), tag="std"):
         cmd = ["cargo", "+nightly", "rustc", "--offline", "-p", "indextree", "--lib", "--no-default-features"]
         if feat:
             cmd += ["--features", feat]
-        cmd += ["--target-dir", os.path.join(scratch, "target"), "--", "-Zunpretty=expanded"]
+        # dependency artefacts (serde, rayon, the proc-macro crate) are shared between runs; the crate
+        # itself is re-expanded from the working tree every time
+        cmd += ["--target-dir", "/var/tmp/vx-expand-target", "--", "-Zunpretty=expanded"]
         p = sh(cmd, cwd=REPO, check=False, timeout=900)
         if p.returncode != 0:
             raise Undecided("/repo does not compile (features=%s):\n%s" % (feat, p.stderr[-3000:]))
@@ -524,6 +526,46 @@ def explore(seed=1, budget_ms=12000, replay_ops=None):
             for vv in j.get("violations", []):
                 vv["build"] = j["build"]
                 out["violations"].append(vv)
+        out["wall_s"] = round(time.time() - t0, 1)
+        json.dump(out, open(cpath, "w"))
+        return out
+    finally:
+        shutil.rmtree(scratch, ignore_errors=True)
+
+
+# ---------------------------------------------------------------- bounded Kani harnesses (get_node_id)
+
+KANI_HARNESSES = ["get_node_id_roundtrip_fresh", "get_node_id_roundtrip_recycled"]
+
+
+def kani_check():
+    """builds the harness crate against the working tree and runs every harness; cached"""
+    lib = open(os.path.join(VERIF, "tools", "kani", "lib.rs")).read()
+    key = sha(repo_src_hash() + lib)
+    cpath = os.path.join(BUILD, "cache", "kani-" + key + ".json")
+    os.makedirs(os.path.dirname(cpath), exist_ok=True)
+    if os.path.exists(cpath):
+        return json.load(open(cpath))
+    scratch = tempfile.mkdtemp(prefix="vx.", dir="/var/tmp")
+    try:
+        open(os.path.join(scratch, "Cargo.toml"), "w").write(
+            open(os.path.join(VERIF, "tools", "kani", "Cargo.toml.tmpl")).read().replace("@REPO@", REPO))
+        os.makedirs(os.path.join(scratch, "src"))
+        open(os.path.join(scratch, "src", "lib.rs"), "w").write(lib)
+        lock = os.path.join(REPO, "Cargo.lock")
+        if os.path.exists(lock):
+            shutil.copy(lock, os.path.join(scratch, "Cargo.lock"))
+        out = {"harnesses": [], "wall_s": 0.0}
+        t0 = time.time()
+        for h in KANI_HARNESSES:
+            p = sh(["cargo", "kani", "--harness", h], cwd=scratch, check=False, timeout=1800)
+            txt = p.stdout + p.stderr
+            ok = "VERIFICATION:- SUCCESSFUL" in txt
+            failed = "VERIFICATION:- FAILED" in txt
+            m = re.search(r"\*\* (\d+) of (\d+) failed", txt)
+            out["harnesses"].append({"name": h, "status": "ok" if ok else ("failed" if failed else "error"),
+                                     "checks": int(m.group(2)) if m else 0, "failed_checks": int(m.group(1)) if m else None,
+                                     "tail": txt[-2500:] if not ok else ""})
         out["wall_s"] = round(time.time() - t0, 1)
         json.dump(out, open(cpath, "w"))
         return out
